@@ -218,7 +218,13 @@ func (sc *sortCtx) structSort(t types.Type, u *types.Struct) string {
 	return name
 }
 
-func fieldName(f *types.Var) string { return sanitize(f.Name()) }
+func fieldName(f *types.Var) string {
+	if f.Name() == "_" {
+		// blank fields may repeat inside one struct: name them by position
+		return fmt.Sprintf("blank%d", int(f.Pos()))
+	}
+	return sanitize(f.Name())
+}
 
 func (sc *sortCtx) fieldSel(structSort string, f *types.Var) string {
 	return structSort + "." + fieldName(f)
